@@ -14,7 +14,8 @@ Local Open Scope N_scope.
 
 (* The full statement (lexical part): whatever the schema, the generator produces source, and that
    source is read back by Python as exactly the strings of the schema.  FALSE of the faithful model
-   on the pinned tree (see the refutations below); kept visible. *)
+   (names are still pasted as identifiers: a reserved word does not lex as a NAME; see the refutation
+   below); kept visible.  Every string-literal site goes through repr() (C09_literal_sites_repr). *)
 Definition C09_statement : Prop :=
   forall (printable : N -> bool) (c : jclass),
     forallb valid_str (c_name c :: map fst (c_props c)) = true ->
@@ -112,6 +113,43 @@ Print Assumptions C09_triple_backslash.
 Print Assumptions C09_sites.
 Print Assumptions C09_sites_witness.
 Print Assumptions C09_relex.
+
+(* the GENERATED table today: every site of a class statement that writes a schema string as a string
+   LITERAL (docstring, pattern, scalar and container defaults, enum values, both required lists) goes
+   through repr(), so C09_sites applies to it for every string; what is left are the sites that paste a
+   NAME.  (Fails to compile when a literal site falls back to a raw discipline.) *)
+Theorem C09_literal_sites_repr :
+  forallb (fun site => quoting_eqb (site_disc emit_sites site) Repr) literal_sites = true /\
+  forallb (fun site => quoting_eqb (site_disc emit_sites site) Identifier) name_sites = true.
+Proof. split; vm_compute; reflexivity. Qed.
+
+(* hence a schema string at a literal site is read back unchanged, whatever it contains *)
+Theorem C09_literal_sites_total : forall printable site s,
+    In site literal_sites -> valid_str s = true ->
+    lex_tok py_keywords (site_disc emit_sites site) (emit printable (site_disc emit_sites site) s) = Some (s, []).
+Proof.
+  intros printable site s Hin Hv.
+  assert (E : site_disc emit_sites site = Repr).
+  { destruct C09_literal_sites_repr as [H _]. rewrite forallb_forall in H. specialize (H site Hin).
+    destruct (site_disc emit_sites site); try discriminate. reflexivity. }
+  rewrite E. apply (lex_roundtrip printable py_keywords); [exact Hv | reflexivity].
+Qed.
+
+(* ... and the only strings of a generated text that can be read back wrongly are its NAMES: a token list
+   over these sites whose names are identifiers (not reserved) is read back as exactly the schema's
+   strings, with NO condition on the strings at the literal sites *)
+Theorem C09_names_only : forall printable toks,
+    names_only py_keywords literal_sites name_sites toks = true -> well_sep toks = true ->
+    relex py_keywords emit_sites (map shape_of toks) (render printable emit_sites toks) = Some (leaves toks).
+Proof.
+  intros printable toks H Hs. apply (relex_render printable py_keywords); [|exact Hs].
+  destruct C09_literal_sites_repr as [Hl Hn].
+  exact (names_only_sites_ok py_keywords emit_sites literal_sites name_sites toks Hl Hn H).
+Qed.
+
+Print Assumptions C09_literal_sites_repr.
+Print Assumptions C09_literal_sites_total.
+Print Assumptions C09_names_only.
 
 (* ------------------------------------------------------------------ whole modules
    (schema_definitions_to_code, write_code_from_schema): the output must not only lex, it must EXECUTE:
@@ -241,16 +279,6 @@ Definition one_prop_class (f : jfield) (req : option (list pystr)) : jclass :=
   {| c_name := s2p "K"; c_description := None; c_closed := false; c_required := req;
      c_props := [(s2p "p", f)] |}.
 
-(* the raw disciplines, whatever site uses them *)
-Theorem C09_refuted_WrapVal : exists s,
-    valid_str s = true /\ lex_tok py_keywords WrapVal (emit all_printable WrapVal s) <> Some (s, []).
-Proof. exists (s2p "a'b"). split; [reflexivity|]. apply lex_break. reflexivity. Qed.
-
-Theorem C09_refuted_TripleQuoted : exists s,
-    valid_str s = true /\
-    lex_tok py_keywords TripleQuoted (emit all_printable TripleQuoted s) <> Some (s, []).
-Proof. exists (s2p "C:\new"). split; [reflexivity|]. apply lex_break. reflexivity. Qed.
-
 (* a reserved word as a property name *)
 Theorem C09_refuted_keyword_name :
     lex_tok py_keywords Identifier (emit all_printable Identifier (s2p "from")) <> Some (s2p "from", []).
@@ -259,15 +287,29 @@ Proof. apply lex_break. reflexivity. Qed.
 Theorem C09_statement_refuted : ~ C09_statement.
 Proof.
   intro H.
-  destruct (H all_printable (one_prop_class (FString [] None (Some (DScalar (LStr (s2p "a'b"))))) None)
+  destruct (H all_printable
+              {| c_name := s2p "K"; c_description := None; c_closed := false; c_required := None;
+                 c_props := [(s2p "from", FNumeric (s2p "Integer") [] None)] |}
               eq_refl) as [toks [E R]].
   vm_compute in E. injection E as <-. vm_compute in R. discriminate.
 Qed.
 
-Print Assumptions C09_refuted_WrapVal.
-Print Assumptions C09_refuted_TripleQuoted.
 Print Assumptions C09_refuted_keyword_name.
 Print Assumptions C09_statement_refuted.
+
+(* the strings that refuted the statement through the raw disciplines (a quote in a default, a backslash
+   in a pattern or in the description) are read back unchanged under the generated table *)
+Example C09_former_witnesses_hold :
+  forall c, In c [ one_prop_class (FString [] None (Some (DScalar (LStr (s2p "a'b"))))) None;
+                   one_prop_class (FString [] (Some (s2p "a\b'")) None) (Some [s2p "p"]);
+                   {| c_name := s2p "K"; c_description := Some (s2p "C:\new """""" end"); c_closed := false;
+                      c_required := None; c_props := [(s2p "p", FBoolean None)] |} ] ->
+  exists toks, class_toks c = Some toks /\
+               relex py_keywords emit_sites (map shape_of toks) (render all_printable emit_sites toks)
+               = Some (leaves toks).
+Proof.
+  intros c [<-|[<-|[<-|[]]]]; (eexists; split; [reflexivity|vm_compute; reflexivity]).
+Qed.
 
 (* ------------------------------------------------------------------ non-vacuity *)
 
@@ -288,6 +330,7 @@ Example C09_nonvacuous :
     all_sites_ok py_keywords emit_sites toks = true /\ well_sep toks = true /\
     relex py_keywords emit_sites (map shape_of toks) (render all_printable emit_sites toks)
     = Some (leaves toks) /\
+    names_only py_keywords literal_sites name_sites toks = true /\
     List.length (leaves toks) = 14%nat.
 Proof. eexists. split; [reflexivity|]. vm_compute. repeat split; reflexivity. Qed.
 
